@@ -25,6 +25,10 @@ CHECKS = {
    technique="complete enumeration of the finite configuration space (sizes x layouts x flags x transport answers) on the real VirtQueue::new/Drop with a ledger-keeping Hal",
    text="Every power-of-two size 1..32768, modern and legacy layout, all 8 flag combinations, both queue_used answers and all relevant max_queue_size answers: the queue_set arguments, the DMA ledger and the registered memory are checked for alignment, extent, disjointness, containment in live DMA memory of a permitting direction, zeroed rings, legacy placement, refusal without side effects and exact release on drop.",
    note="Behaviour depends on max_queue_size only through max<N, so large sizes use boundary representatives (stated in the evidence)."),
+ "C10": dict(level="exploration", design="DESIGN.md §4 C10",
+   technique="complete enumeration of transport operations and argument boundary sets on the real MmioTransport with every MMIO access intercepted (safe-mmio custom backend) and served by a register-level reference device; oracle = constraints from the specification's register table",
+   text="Every Transport method of MmioTransport, directly and through SomeTransport, on version 1 and 2 devices, for all queue indices, power-of-two sizes, address triples, feature words, status and interrupt values and device lag, all ordered pairs (thorough: triples) of operations, real initialisation with a real queue, and 56875 probe headers: each access must be a 32-bit access to a register defined for that operation and version in the permitted direction, with queue selection first, correct low/high splitting, QueueReady/QueuePFN last, reset on drop, and the device-side effect must match the arguments.",
+   note="Trusts the register-level device model (lab/src/regdev.rs) written from virtio-mmio spec 4.2.2/4.2.4. Reading ConfigGeneration on legacy devices is tolerated."),
 }
 
 NOT_YET = "check not built yet in this round (machinery under construction; see DESIGN.md)"
